@@ -415,6 +415,74 @@ def run_verus_group(ws, group, workdir):
 # main
 # ---------------------------------------------------------------------------------------
 
+
+def group_harnesses(g, tier):
+    hs = list(g["harnesses"].get("quick", []))
+    if tier == "thorough":
+        hs += [h for h in g["harnesses"].get("thorough", []) if h not in hs]
+    return hs
+
+
+def run_all_kani(cfg, tier, ws, workdir, args):
+    """One `cargo kani` invocation per (crate, features) for ALL groups of the property (their
+    harnesses then run in parallel); results are attributed back to the groups.  SUCCESSFUL
+    results are reused from the content-addressed cache (VERIF_CACHE=0 disables)."""
+    use_cache = os.environ.get("VERIF_CACHE", "1") != "0" and not args.patch
+    batches = {}
+    for g in cfg["groups"]:
+        if g["engine"] != "kani" or (args.only and g["name"] != args.only):
+            continue
+        key = (g["crate"], g.get("features", ""), tuple(g.get("zflags", [])), tuple(g.get("kani_args", [])))
+        batches.setdefault(key, []).append(g)
+    results = {}
+    for key, groups in batches.items():
+        recs_all = {}
+        todo = []
+        hashes = {}
+        htimeout = 0
+        timeout = 0
+        for g in groups:
+            th = tree_hash(ws, g, None)
+            tt = g.get("timeout", {}).get(tier, 1500 if tier == "quick" else 7200) \
+                if isinstance(g.get("timeout"), dict) else g.get("timeout", 1500 if tier == "quick" else 7200)
+            timeout = max(timeout, tt)
+            htimeout = max(htimeout, g.get("harness_timeout", 900))
+            for h in group_harnesses(g, tier):
+                hashes.setdefault(h, th)
+                if h in recs_all or h in todo:
+                    continue
+                cf = os.path.join(cache_dir(), hashlib.sha256((th + h).encode()).hexdigest() + ".json")
+                if use_cache and os.path.exists(cf):
+                    try:
+                        r = json.load(open(cf))
+                        r["cached"] = True
+                        recs_all[h] = r
+                        continue
+                    except ValueError:
+                        pass
+                todo.append(h)
+        out, wall, rc = "", 0.0, 0
+        g0 = dict(groups[0])
+        g0["harness_timeout"] = htimeout
+        if todo:
+            logname = os.path.join(workdir, "kani-%s.log" % key[0])
+            cmd, rc, out, wall = run_kani_group(ws, g0, todo, args.jobs, timeout, logname)
+            cmdtxt = " ".join(cmd)
+            recs = parse_kani(out)
+            for h in todo:
+                r = recs.get(h)
+                if r:
+                    recs_all[h] = r
+                    if r.get("status") == "SUCCESSFUL" and r.get("failed", 1) == 0 and r.get("covers", 0) == r.get("covers_sat", 0):
+                        cf = os.path.join(cache_dir(), hashlib.sha256((hashes[h] + h).encode()).hexdigest() + ".json")
+                        json.dump({k: r.get(k) for k in ("harness", "full", "checks", "failed", "covers", "covers_sat", "status", "time_s", "failed_checks", "raw")}, open(cf, "w"))
+        else:
+            cmdtxt = " ".join(kani_cmd(g0, [h for g in groups for h in group_harnesses(g, tier)], args.jobs)) + "   # every result reused from the content-addressed cache"
+        for g in groups:
+            hs = group_harnesses(g, tier)
+            results[g["name"]] = (cmdtxt, rc, out, wall, {h: recs_all[h] for h in hs if h in recs_all}, timeout)
+    return results
+
 def load_known():
     known, fixed = [], []
     p = os.path.join(VERIF, "known_findings.txt")
@@ -564,6 +632,7 @@ def do_check(pid, cfg, tier, seed, ws, injected, args, t0):
     cmds = []
     solver_time = 0.0
     functions = []
+    kani_results = run_all_kani(cfg, tier, ws, workdir, args)
     for g in cfg["groups"]:
         if args.only and g["name"] != args.only:
             continue
@@ -574,39 +643,8 @@ def do_check(pid, cfg, tier, seed, ws, injected, args, t0):
                 hs += [h for h in g["harnesses"].get("thorough", []) if h not in hs]
             if not hs:
                 continue
-            timeout = g.get("timeout", {}).get(tier, 1500 if tier == "quick" else 7200) \
-                if isinstance(g.get("timeout"), dict) else g.get("timeout", 1500 if tier == "quick" else 7200)
-            # Content-addressed reuse: a harness result is a function of (sources, contracts, tools).
-            # Only SUCCESSFUL results are reused, and only when VERIF_CACHE != 0.
-            use_cache = os.environ.get("VERIF_CACHE", "1") != "0" and not args.patch
-            th = tree_hash(ws, g, None)
-            cached = {}
-            if use_cache:
-                for h in hs:
-                    cf = os.path.join(cache_dir(), hashlib.sha256((th + h).encode()).hexdigest() + ".json")
-                    if os.path.exists(cf):
-                        try:
-                            cached[h] = json.load(open(cf))
-                        except ValueError:
-                            pass
-            todo = [h for h in hs if h not in cached]
-            if todo:
-                cmd, rc, out, wall = run_kani_group(ws, g, todo, args.jobs, timeout, os.path.join(workdir, g["name"] + ".log"))
-                cmds.append(" ".join(cmd))
-                recs = parse_kani(out)
-            else:
-                cmd, rc, out, wall = kani_cmd(g, hs, args.jobs), 0, "", 0.0
-                cmds.append(" ".join(cmd) + "   # all results of this group reused from the content-addressed cache")
-                recs = {}
-            for h, r in cached.items():
-                r = dict(r)
-                r["cached"] = True
-                recs[h] = r
-            for h in todo:
-                r = recs.get(h)
-                if r and r.get("status") == "SUCCESSFUL" and r.get("failed", 1) == 0 and r.get("covers", 0) == r.get("covers_sat", 0):
-                    cf = os.path.join(cache_dir(), hashlib.sha256((th + h).encode()).hexdigest() + ".json")
-                    json.dump({k: r.get(k) for k in ("harness", "full", "checks", "failed", "covers", "covers_sat", "status", "time_s", "failed_checks", "raw")}, open(cf, "w"))
+            cmd, rc, out, wall, recs, timeout = kani_results[g["name"]]
+            cmds.append(cmd)
             rep = {"group": g["name"], "engine": "kani/cbmc", "bounded": bool(g.get("bounded")),
                    "bounds": g.get("bounds", "none (loop-free full-domain, or unrolled to a width fixed by the standard with unwinding assertions)"),
                    "wall_s": round(wall, 1), "harnesses": []}
@@ -775,7 +813,7 @@ def do_check(pid, cfg, tier, seed, ws, injected, args, t0):
             "obligations_bounded": bounded_obl, "discharged_bounded": bounded_dis,
             "evaluations": max(obligations, 1), "distinct_nontrivial": len(named_obl),
             "rule": "evaluations = verification conditions reported by the back ends on this run (CBMC checks: contract assertions, overflow, bounds, pointer validity, unreachable!, unwinding assertions; Verus: functions verified). distinct_nontrivial = distinct named contract clauses 'Cxx/<function>/<clause>' in the contract modules that were run.",
-            "checker_cmd": " && ".join(cmds) if cmds else "none",
+            "checker_cmd": " && ".join(dict.fromkeys(cmds)) if cmds else "none",
             "trusted_base": cfg.get("trusted_base", []) + ["rustc/kani-compiler MIR->goto translation", "CBMC 6.11 + CaDiCaL/kissat", "Verus 0.2026.09.13 + Z3" if any(g["engine"] == "verus" for g in cfg["groups"]) else "—"],
             "samples": (named_obl[:12] + samples)[:40] or ["none"],
             "functions_under_contract": sorted(set(functions)),
